@@ -154,7 +154,9 @@ def run(ctx):
         for s in adds:
             for o in s.rv.ops:
                 sl = fl.slice_local(fl._op_reads(o))
-                loops = any(nd[0] == "CLOS" for nd in sl)  # the filter closure comparing u and v with the name
+                # the self-loop test: a filter closure comparing u and v with the name, or the same comparisons
+                # written in a counting loop
+                loops = any(nd[0] == "CLOS" for nd in sl) or any(nd[0] == "CALL" and b.blocks[nd[1]].term.callee and b.blocks[nd[1]].term.callee.short.split("::")[-1] in ("eq", "ne") for nd in sl)
                 directed = any(nd[0] == "SRC" and ".".join(f for f in nd[2] if f != "*").endswith("specs.directed") for nd in sl)
                 if loops and directed:
                     ok = True
